@@ -140,6 +140,22 @@ def parseOp (line : String) : Option Op :=
   | ["send", g] => match parseEv g with | some (.g n) => some (.send n) | _ => none
   | ["sendto", t, e] => match parseEv t, parseOrd e with | some (.t n), some e => some (.sendto n e) | _, _ => none
   | "addh" :: toks => (parseHSpec toks).map .addh
+  | ["addfn", f, wrap] =>
+    -- ordinary `fn` handlers of the harness (FunctionHandler glue): same behaviour as these scripted handlers; the
+    -- wrappers `.high()` / `.low()` keep the function's type id, `.no_type_id()` drops it
+    let spec : Option (Nat × List PSpec × List Act) := match f with
+      | "fn0" => some (0, [.recv (.g 0) false none], [])
+      | "fn1" => some (1, [.recv (.g 0) false none, .fetch (.snoc (.snoc .unit .eid) (.ref 0))], [.iter 1])
+      | "fn2" => some (2, [.recv (.t 0) false (some .eid)], [])
+      | "fn3" => some (3, [.recv (.g 1) true none, .snd [.g 0, .spawn]], [.send 0, .take])
+      | _ => none
+    let pt : Option (Priority × Bool) := match wrap with
+      | "plain" => some (.medium, true) | "high" => some (.high, true) | "low" => some (.low, true)
+      | "notid" => some (.medium, false) | _ => none
+    match spec, pt with
+    | some (i, params, body), some (prio, keepTid) =>
+      some (.addh { name := f, prio, tid := if keepTid then some (100 + i) else none, params, body })
+    | _, _ => none
   | ["rmh", name] => some (.rmh name)
   | ["addc", k] => (parseK k).map .addc
   | ["rmc", k] => (parseK k).map .rmc
